@@ -1,8 +1,9 @@
-(* Sites.v — the regenerated source inventories (gen/PanicSites.v, gen/CfgSites.v) against what the
-   model represents.  A new unwrap / index / cfg(feature) in the sources fails these obligations. *)
+(* Sites.v — the regenerated panic-site inventory (gen/PanicSites.v) against what the model represents.
+   A new unwrap / index / insert-at-index in the sources fails this obligation.  (The cfg(feature) inventory is in
+   CfgSitesProofs.v: the two obligations fail independently.) *)
 From Coq Require Import List String Bool Ascii.
 Import ListNotations.
-From UL Require Import PanicSites CfgSites.
+From UL Require Import PanicSites.
 Open Scope string_scope.
 
 Definition site := (string * string * string * string)%type.
@@ -44,54 +45,3 @@ Definition panic_sites_covered : bool :=
 Lemma sites_covered : panic_sites_covered = true.
 Proof. vm_compute. reflexivity. Qed.
 
-(* a conditional-compilation site is additive when it guards a whole item (module, function, impl,
-   use, macro, other item); the only statement-level site allowed is the documented refinement inside
-   character_direction; cfg(unic_locale_verif) is the verification hook; a cargo feature may only
-   switch on optional dependencies or features of dependencies *)
-Fixpoint no_cfg_not (s : string) : bool :=
-  match s with
-  | EmptyString => true
-  | String c r => negb (prefix "not(" s) && no_cfg_not r
-  end.
-(* cargo features: `fn` = the feature's name, `expr` = the comma-separated list of what it enables.  The only
-   feature with a behavioural effect is `likelysubtags`; no OTHER feature may switch it on, neither locally
-   ("likelysubtags") nor in a dependency ("dep/likelysubtags"): enabling serde or macros must not change results *)
-Fixpoint split_comma_aux (cur : string) (s : string) : list string :=
-  match s with
-  | EmptyString => [cur]
-  | String c r => if Ascii.eqb c ","%char then cur :: split_comma_aux "" r else split_comma_aux (cur ++ String c "") r
-  end.
-Definition split_comma (s : string) : list string := split_comma_aux "" s.
-Fixpoint after_slash (s : string) : string :=
-  match s with
-  | EmptyString => ""
-  | String c r => if Ascii.eqb c "/"%char then r else after_slash r
-  end.
-Fixpoint has_slash (s : string) : bool :=
-  match s with EmptyString => false | String c r => Ascii.eqb c "/"%char || has_slash r end.
-Definition item_feature (item : string) : string := if has_slash item then after_slash item else item.
-Definition cargo_feature_ok (name items : string) : bool :=
-  String.eqb name "likelysubtags"
-  || forallb (fun it => negb (String.eqb (item_feature it) "likelysubtags")) (split_comma items).
-
-Definition cfg_site_ok (s : site) : bool :=
-  match s with
-  | (file, fn, expr, kind) =>
-    if String.eqb kind "cargo-feature" then cargo_feature_ok fn expr
-    else if String.eqb expr "unic_locale_verif" then String.eqb kind "mod"
-    else
-      no_cfg_not expr &&
-      (String.eqb kind "mod" || String.eqb kind "fn" || String.eqb kind "impl" || String.eqb kind "use"
-       || String.eqb kind "macro" || String.eqb kind "item"
-       || (String.eqb kind "stmt" && String.eqb file "unic-langid-impl/src/lib.rs"
-           && String.eqb fn "character_direction" && String.eqb expr "feature=""likelysubtags"""))
-  end.
-Definition cfg_sites_additive : bool := forallb cfg_site_ok cfg_sites.
-Lemma sites_additive : cfg_sites_additive = true.
-Proof. vm_compute. reflexivity. Qed.
-(* the rule is not vacuous *)
-Example cargo_feature_rule :
-  cargo_feature_ok "serde" "unic-langid-impl/serde" = true /\ cargo_feature_ok "likelysubtags" "unic-langid-impl/likelysubtags" = true
-  /\ cargo_feature_ok "serde" "unic-langid-impl/serde,unic-langid-impl/likelysubtags" = false
-  /\ cargo_feature_ok "macros" "unic-langid-macros,likelysubtags" = false /\ cargo_feature_ok "binary" "serde,serde_json" = true.
-Proof. vm_compute. repeat split; reflexivity. Qed.
